@@ -115,4 +115,439 @@ theorem edge_sem {L : Nat} {lh lh' : LHeap} {full : Nat → Key} (hok : LOk L lh
       intro h; cases h; exact e rfl
     rw [if_neg hne, B e]
 
+
+/-! ### the last step of every branch of `put`: give `cur` (in place) or a clone of `cur` a new children list -/
+
+structure Mid (L : Nat) (lh : LHeap) (full : Nat → Key) (P : Nat → Prop) (below : Key) (d : Nat)
+    (lh1 : LHeap) (full1 : Nat → Key) : Prop where
+  ok : LOk L lh1 full1
+  len : lh.length ≤ lh1.length
+  fsame : ∀ id, id < lh.length → full1 id = full id
+  old : ∀ id n, lh[id]? = some n → lh1[id]? = some n ∨
+      (P id ∧ n.dye = d ∧ below <+: full id ∧ ∃ n', lh1[id]? = some n' ∧ n'.key = n.key ∧ n'.dye = n.dye ∧
+        n'.data = n.data ∧ n'.terminal = n.terminal ∧ ∀ c ∈ n'.kids, c < lh.length → P c)
+  new : ∀ id n', lh.length ≤ id → lh1[id]? = some n' →
+      (n'.dye = d ∨ ∃ p np, P p ∧ lh[p]? = some np ∧ n'.dye = np.dye) ∧ ∀ c ∈ n'.kids, c < lh.length → P c
+
+def fin (lh1 : LHeap) (cur : Nat) (cn : LN) (kids' : List Nat) (d : Nat) : LHeap × Option Nat :=
+  if cn.dye = d then (lh1.set cur { cn with kids := kids' }, none)
+  else (lh1 ++ [{ cn with dye := d, kids := kids' }], some lh1.length)
+
+def finFull (lh1 : LHeap) (full1 : Nat → Key) (cur : Nat) (cn : LN) (d : Nat) : Nat → Key :=
+  if cn.dye = d then full1 else fun id => if id = lh1.length then full1 cur else full1 id
+
+theorem Mid.keepkey {L : Nat} {lh : LHeap} {full : Nat → Key} {P : Nat → Prop} {below : Key} {d : Nat}
+    {lh1 : LHeap} {full1 : Nat → Key} (m : Mid L lh full P below d lh1 full1) (y : Nat) (ny : LN)
+    (h : lh[y]? = some ny) : ∃ ny' : LN, lh1[y]? = some ny' ∧ ny'.key = ny.key ∧ ny'.ent = ny.ent := by
+  rcases m.old y ny h with h1 | ⟨_, _, _, n', h1, h2, h3, h4, h5, _⟩
+  · exact ⟨ny, h1, rfl, rfl⟩
+  · exact ⟨n', h1, h2, by simp [LN.ent, h3, h4, h5]⟩
+
+theorem fin_mid {L : Nat} {lh : LHeap} {full : Nat → Key} {P : Nat → Prop} {below : Key} {d : Nat}
+    {lh1 : LHeap} {full1 : Nat → Key} (m : Mid L lh full P below d lh1 full1) {cur : Nat} {cn : LN}
+    (hcur : lh[cur]? = some cn) (hcur1 : lh1[cur]? = some cn) (hP : P cur) (hbelow : full cur <+: below)
+    (kids' : List Nat)
+    (KC : ∀ c ∈ kids', ∃ nc, lh1[c]? = some nc ∧ nc.key ≠ [] ∧ full1 c = full cur ++ nc.key ∧ (c < lh.length → P c)) :
+    Mid L lh full P (full cur) d (fin lh1 cur cn kids' d).1 (finFull lh1 full1 cur cn d) ∧
+    (∀ t, (fin lh1 cur cn kids' d).2 = some t → lh.length ≤ t ∧ ∃ nt, (fin lh1 cur cn kids' d).1[t]? = some nt ∧
+      nt.key = cn.key ∧ finFull lh1 full1 cur cn d t = full cur) ∧
+    -- the new root and the rest of the heap
+    (∃ rn', (fin lh1 cur cn kids' d).1[((fin lh1 cur cn kids' d).2).getD cur]? = some rn' ∧ rn'.kids = kids') ∧
+    (∀ z, z < lh1.length → z ≠ cur → (fin lh1 cur cn kids' d).1[z]? = lh1[z]?) := by
+  have hcurlt := valid_lt hcur
+  have hcurlt1 := valid_lt hcur1
+  have hfc : full1 cur = full cur := m.fsame cur hcurlt
+  have hlen := m.len
+  by_cases hd : cn.dye = d
+  · -- in place
+    have e1 : fin lh1 cur cn kids' d = (lh1.set cur { cn with kids := kids' }, none) := by simp [fin, hd]
+    have e2 : finFull lh1 full1 cur cn d = full1 := by simp [finFull, hd]
+    rw [e1, e2]
+    have hset : ∀ z, z ≠ cur → (lh1.set cur { cn with kids := kids' })[z]? = lh1[z]? := by
+      intro z hz; rw [List.getElem?_set]; simp [Ne.symm hz]
+    have hsetc : (lh1.set cur { cn with kids := kids' })[cur]? = some { cn with kids := kids' } := by
+      rw [List.getElem?_set]; simp [hcurlt1]
+    have hkey : ∀ (z : Nat) (nz : LN), lh1[z]? = some nz → ∃ nz' : LN, (lh1.set cur { cn with kids := kids' })[z]? = some nz' ∧
+        nz'.key = nz.key := by
+      intro z nz hz
+      by_cases e : z = cur
+      · subst e; rw [hcur1] at hz; cases hz; exact ⟨_, hsetc, rfl⟩
+      · exact ⟨nz, by rw [hset z e]; exact hz, rfl⟩
+    refine ⟨⟨⟨?_, ?_⟩, (by simpa using hlen), m.fsame, ?_, ?_⟩, (fun t h => by cases h), ⟨_, hsetc, rfl⟩, fun z _ hz => hset z hz⟩
+    · intro id n c hn hc
+      by_cases e : id = cur
+      · subst e
+        rw [hsetc] at hn; cases hn
+        obtain ⟨nc, g1, g2, g3, _⟩ := KC c hc
+        obtain ⟨nc', q1, q2⟩ := hkey c nc g1
+        exact ⟨nc', q1, by rw [q2]; exact g2, by rw [g3, hfc, q2]⟩
+      · rw [hset id e] at hn
+        obtain ⟨nc, g1, g2, g3⟩ := m.ok.kid id n c hn hc
+        obtain ⟨nc', q1, q2⟩ := hkey c nc g1
+        exact ⟨nc', q1, by rw [q2]; exact g2, by rw [g3, q2]⟩
+    · intro id n hn
+      by_cases e : id = cur
+      · subst e; exact m.ok.depth id cn hcur1
+      · rw [hset id e] at hn; exact m.ok.depth id n hn
+    · intro id n hn
+      by_cases e : id = cur
+      · subst e
+        rw [hcur] at hn; cases hn
+        right
+        refine ⟨hP, hd, List.prefix_refl _, _, hsetc, rfl, rfl, rfl, rfl, ?_⟩
+        intro c hc hlt
+        obtain ⟨_, _, _, _, g4⟩ := KC c hc
+        exact g4 hlt
+      · rcases m.old id n hn with h1 | ⟨a1, a2, a3, n', a4, a5⟩
+        · left; rw [hset id e]; exact h1
+        · right; exact ⟨a1, a2, hbelow.trans a3, n', by rw [hset id e]; exact a4, a5⟩
+    · intro id n' hid hn
+      have e : id ≠ cur := by omega
+      rw [hset id e] at hn
+      exact m.new id n' hid hn
+  · -- a clone of `cur`
+    have e1 : fin lh1 cur cn kids' d = (lh1 ++ [{ cn with dye := d, kids := kids' }], some lh1.length) := by
+      simp [fin, hd]
+    have e2 : finFull lh1 full1 cur cn d = fun id => if id = lh1.length then full1 cur else full1 id := by
+      simp [finFull, hd]
+    rw [e1, e2]
+    have happ : ∀ z, z < lh1.length → (lh1 ++ [{ cn with dye := d, kids := kids' }])[z]? = lh1[z]? := by
+      intro z hz; rw [List.getElem?_append_left hz]
+    have hnewt : (lh1 ++ [({ cn with dye := d, kids := kids' } : LN)])[lh1.length]? = some { cn with dye := d, kids := kids' } := by
+      simp
+    have hcls : ∀ z nz, (lh1 ++ [({ cn with dye := d, kids := kids' } : LN)])[z]? = some nz →
+        (z < lh1.length ∧ lh1[z]? = some nz) ∨ (z = lh1.length ∧ nz = { cn with dye := d, kids := kids' }) := by
+      intro z nz hz
+      by_cases a : z < lh1.length
+      · rw [happ z a] at hz; exact Or.inl ⟨a, hz⟩
+      · by_cases b : z = lh1.length
+        · subst b; rw [hnewt] at hz; cases hz; exact Or.inr ⟨rfl, rfl⟩
+        · rw [List.getElem?_eq_none (by simp; omega)] at hz; cases hz
+    have hff : ∀ z, z < lh1.length → (if z = lh1.length then full1 cur else full1 z) = full1 z := by
+      intro z hz; rw [if_neg (by omega)]
+    refine ⟨⟨⟨?_, ?_⟩, (by simp; omega), ?_, ?_, ?_⟩, ?_, ⟨_, hnewt, rfl⟩, fun z hz _ => happ z hz⟩
+    · intro id n c hn hc
+      rcases hcls id n hn with ⟨a, b⟩ | ⟨rfl, rfl⟩
+      · obtain ⟨nc, g1, g2, g3⟩ := m.ok.kid id n c b hc
+        have hclt := valid_lt g1
+        exact ⟨nc, by rw [happ c hclt]; exact g1, g2, by rw [hff c hclt, hff id a, g3]⟩
+      · obtain ⟨nc, g1, g2, g3, _⟩ := KC c hc
+        have hclt := valid_lt g1
+        refine ⟨nc, by rw [happ c hclt]; exact g1, g2, ?_⟩
+        simp only [if_true]
+        rw [hff c hclt, g3, hfc]
+    · intro id n hn
+      rcases hcls id n hn with ⟨a, b⟩ | ⟨rfl, rfl⟩
+      · rw [hff id a]; exact m.ok.depth id n b
+      · simp only [if_true]; exact m.ok.depth cur cn hcur1
+    · intro id hid
+      rw [hff id (by omega)]; exact m.fsame id hid
+    · intro id n hn
+      have hidlt := valid_lt hn
+      rcases m.old id n hn with h1 | ⟨a1, a2, a3, n', a4, a5⟩
+      · left; rw [happ id (by omega)]; exact h1
+      · right; exact ⟨a1, a2, hbelow.trans a3, n', by rw [happ id (by omega)]; exact a4, a5⟩
+    · intro id n' hid hn
+      rcases hcls id n' hn with ⟨a, b⟩ | ⟨rfl, rfl⟩
+      · exact m.new id n' hid b
+      · refine ⟨Or.inl rfl, ?_⟩
+        intro c hc hlt
+        obtain ⟨_, _, _, _, g4⟩ := KC c hc
+        exact g4 hlt
+    · intro t ht
+      simp only [Option.some.injEq] at ht
+      subst ht
+      refine ⟨hlen, _, hnewt, rfl, ?_⟩
+      simp only [if_true]
+      exact hfc
+
+
+/-- pure allocation of new nodes -/
+theorem mid_append {L : Nat} {lh : LHeap} {full : Nat → Key} (hok : LOk L lh full) (P : Nat → Prop) (below : Key) (d : Nat)
+    (news : List LN) (full1 : Nat → Key) (hf : ∀ id, id < lh.length → full1 id = full id)
+    (hnew : ∀ id nn, lh.length ≤ id → (lh ++ news)[id]? = some nn →
+      (full1 id).length ≤ L ∧ (nn.dye = d ∨ ∃ p np, P p ∧ lh[p]? = some np ∧ nn.dye = np.dye) ∧
+      ∀ c ∈ nn.kids, ∃ nc, (lh ++ news)[c]? = some nc ∧ nc.key ≠ [] ∧ full1 c = full1 id ++ nc.key ∧ (c < lh.length → P c)) :
+    Mid L lh full P below d (lh ++ news) full1 := by
+  have hold : ∀ z, z < lh.length → (lh ++ news)[z]? = lh[z]? := fun z hz => List.getElem?_append_left hz
+  refine ⟨⟨?_, ?_⟩, by simp, hf, ?_, ?_⟩
+  · intro id n c hn hc
+    by_cases a : id < lh.length
+    · rw [hold id a] at hn
+      obtain ⟨nc, g1, g2, g3⟩ := hok.kid id n c hn hc
+      have hclt := valid_lt g1
+      exact ⟨nc, by rw [hold c hclt]; exact g1, g2, by rw [hf c hclt, hf id a, g3]⟩
+    · obtain ⟨_, _, h3⟩ := hnew id n (by omega) hn
+      obtain ⟨nc, g1, g2, g3, _⟩ := h3 c hc
+      exact ⟨nc, g1, g2, g3⟩
+  · intro id n hn
+    by_cases a : id < lh.length
+    · rw [hold id a] at hn; rw [hf id a]; exact hok.depth id n hn
+    · exact (hnew id n (by omega) hn).1
+  · intro id n hn
+    left; rw [hold id (valid_lt hn)]; exact hn
+  · intro id n' hid hn
+    obtain ⟨_, h2, h3⟩ := hnew id n' hid hn
+    refine ⟨h2, ?_⟩
+    intro c hc hlt
+    obtain ⟨_, _, _, _, g4⟩ := h3 c hc
+    exact g4 hlt
+
+theorem replaceL_fin {lh1 : LHeap} {cur i x d : Nat} {cn : LN} (hcur : lh1[cur]? = some cn) (hi : i < cn.kids.length) :
+    replaceL lh1 cur i x d = some (fin lh1 cur cn (cn.kids.set i x) d) := by
+  unfold replaceL fin
+  rw [hcur]
+  simp only [hi, if_true]
+  split <;> rfl
+
+theorem Mid.toPost {L : Nat} {lh : LHeap} {full : Nat → Key} {P : Nat → Prop} {cur : Nat} {key : Key} {data : Option Data}
+    {d : Nat} {lh' : LHeap} {res : Option Nat} {full' : Nat → Key} {cn : LN} (hcur : lh[cur]? = some cn)
+    (m : Mid L lh full P (full cur) d lh' full')
+    (hroot : ∀ t, res = some t → lh.length ≤ t ∧ ∃ nt, lh'[t]? = some nt ∧ nt.key = cn.key ∧ full' t = full cur)
+    (hsem : ∀ s : Key, s.length = key.length →
+      entR (look lh' (res.getD cur) s) = if s = key then putEnt d data (entR (look lh cur s)) else entR (look lh cur s)) :
+    PutPost L lh full P cur key data d lh' res full' :=
+  ⟨m.ok, m.len, m.fsame, m.old, m.new, fun t ht => by
+    obtain ⟨a, nt, b, c, e⟩ := hroot t ht
+    exact ⟨a, cn, nt, hcur, b, c, e⟩, hsem⟩
+
+
+theorem putEnt_none (d : Nat) (data : Option Data) : putEnt d data (.ok none) = .ok (some ⟨d, true, data⟩) := rfl
+
+theorem get_app_new0 {α : Type} (lh : List α) (a : α) (rest : List α) : (lh ++ a :: rest)[lh.length]? = some a := by grind
+theorem get_app_new1 {α : Type} (lh : List α) (a b : α) (rest : List α) : (lh ++ a :: b :: rest)[lh.length + 1]? = some b := by grind
+theorem get_app_new2 {α : Type} (lh : List α) (a b c : α) (rest : List α) :
+    (lh ++ a :: b :: c :: rest)[lh.length + 2]? = some c := by grind
+
+/-- old children of `cur` are admissible children of the new root -/
+theorem KC_old {L : Nat} {lh lh1 : LHeap} {full full1 : Nat → Key} {P : Nat → Prop} (hok : LOk L lh full)
+    (hclosed : ∀ (id : Nat) (n : LN) (c : Nat), P id → lh[id]? = some n → c ∈ n.kids → P c)
+    {cur : Nat} {cn : LN} (hcur : lh[cur]? = some cn) (hP : P cur)
+    (hkeep : ∀ (y : Nat) (ny : LN), lh[y]? = some ny → ∃ ny' : LN, lh1[y]? = some ny' ∧ ny'.key = ny.key)
+    (hf : ∀ id, id < lh.length → full1 id = full id) {c : Nat} (hc : c ∈ cn.kids) :
+    ∃ nc, lh1[c]? = some nc ∧ nc.key ≠ [] ∧ full1 c = full cur ++ nc.key ∧ (c < lh.length → P c) := by
+  obtain ⟨nc, g1, g2, g3⟩ := hok.kid cur cn c hcur hc
+  obtain ⟨nc', q1, q2⟩ := hkeep c nc g1
+  exact ⟨nc', q1, by rw [q2]; exact g2, by rw [hf c (valid_lt g1), g3, q2], fun _ => hclosed cur cn c hP hcur hc⟩
+
+/-- the branches "no child shares a symbol with the key": a new leaf among the children of `cur` / of its clone -/
+theorem put_leaf_post {L : Nat} {lh : LHeap} {full : Nat → Key} {P : Nat → Prop} (hok : LOk L lh full)
+    (hclosed : ∀ (id : Nat) (n : LN) (c : Nat), P id → lh[id]? = some n → c ∈ n.kids → P c)
+    {cur : Nat} {cn : LN} (hcur : lh[cur]? = some cn) (hP : P cur)
+    {k0 : Nat} {kt : Key} {pre post : List Nat} (hkids : cn.kids = pre ++ post)
+    (hpre : ∀ x ∈ pre, HdLt lh k0 x)
+    (hpost : post = [] ∨ ∃ c ch c0 ct rest, post = c :: rest ∧ lh[c]? = some ch ∧ ch.key = c0 :: ct ∧ k0 < c0)
+    (hlen : (full cur).length + (k0 :: kt).length = L) (data : Option Data) (d : Nat) :
+    ∃ full', PutPost L lh full P cur (k0 :: kt) data d
+      (fin (lh ++ [lleaf (k0 :: kt) d data]) cur cn (pre ++ lh.length :: post) d).1
+      (fin (lh ++ [lleaf (k0 :: kt) d data]) cur cn (pre ++ lh.length :: post) d).2 full' := by
+  have hcurlt := valid_lt hcur
+  let full1 : Nat → Key := fun id => if id = lh.length then full cur ++ k0 :: kt else full id
+  have hf1 : ∀ id, id < lh.length → full1 id = full id := by
+    intro id h; show (if id = lh.length then _ else _) = _; rw [if_neg (by omega)]
+  have hnew1 : (lh ++ [lleaf (k0 :: kt) d data])[lh.length]? = some (lleaf (k0 :: kt) d data) := get_app_new0 _ _ _
+  have hold1 : ∀ z, z < lh.length → (lh ++ [lleaf (k0 :: kt) d data])[z]? = lh[z]? :=
+    fun z hz => List.getElem?_append_left hz
+  have m1 : Mid L lh full P (full cur) d (lh ++ [lleaf (k0 :: kt) d data]) full1 := by
+    apply mid_append hok P (full cur) d _ full1 hf1
+    intro id nn hid hnn
+    have : id = lh.length := by
+      by_cases e : id = lh.length
+      · exact e
+      · rw [List.getElem?_eq_none (by simp; omega)] at hnn; cases hnn
+    subst this
+    rw [hnew1] at hnn; cases hnn
+    refine ⟨?_, Or.inl rfl, ?_⟩
+    · show (if lh.length = lh.length then _ else _ : Key).length ≤ L
+      rw [if_pos rfl, List.length_append]; omega
+    · intro c hc; simp [lleaf] at hc
+  have hcur1 : (lh ++ [lleaf (k0 :: kt) d data])[cur]? = some cn := by rw [hold1 cur hcurlt]; exact hcur
+  have KC : ∀ c ∈ pre ++ lh.length :: post, ∃ nc, (lh ++ [lleaf (k0 :: kt) d data])[c]? = some nc ∧ nc.key ≠ [] ∧
+      full1 c = full cur ++ nc.key ∧ (c < lh.length → P c) := by
+    intro c hc
+    by_cases e : c = lh.length
+    · subst e
+      refine ⟨_, hnew1, by simp [lleaf], ?_, fun h => absurd h (Nat.lt_irrefl _)⟩
+      show (if lh.length = lh.length then _ else _ : Key) = _
+      rw [if_pos rfl]; rfl
+    · have hc' : c ∈ cn.kids := by
+        rw [hkids]; simp only [List.mem_append, List.mem_cons] at hc ⊢
+        rcases hc with h | h | h
+        · exact Or.inl h
+        · exact absurd h e
+        · exact Or.inr h
+      exact KC_old hok hclosed hcur hP (fun y ny hy => ⟨ny, by rw [hold1 y (valid_lt hy)]; exact hy, rfl⟩) hf1 hc'
+  obtain ⟨m2, hroot, ⟨rn', hr1, hr2⟩, hrest⟩ := fin_mid m1 hcur hcur1 hP (List.prefix_refl _) _ KC
+  refine ⟨_, m2.toPost hcur hroot ?_⟩
+  -- semantics
+  generalize fin (lh ++ [lleaf (k0 :: kt) d data]) cur cn (pre ++ lh.length :: post) d = fr at *
+  obtain ⟨lh', res⟩ := fr
+  simp only at m2 hroot hr1 hr2 hrest ⊢
+  have hlen1 : (lh ++ [lleaf (k0 :: kt) d data]).length = lh.length + 1 := by simp
+  have hsame : ∀ x ∈ pre ++ post, lh'[x]? = lh[x]? ∧ ∀ t, look lh' x t = look lh x t := by
+    intro x hx
+    have hxk : x ∈ cn.kids := by rw [hkids]; exact hx
+    obtain ⟨nc, g1, g2, g3⟩ := hok.kid cur cn x hcur hxk
+    have hxlt := valid_lt g1
+    have hxm : x ≠ cur := by
+      intro e; have := kid_full_longer hok hcur hxk; rw [e] at this; omega
+    refine ⟨by rw [hrest x (by omega) hxm, hold1 x hxlt], fun t => look_below hok hxlt ?_ t⟩
+    intro y hy hpfx
+    have hyc : y ≠ cur := by
+      intro e
+      exact not_below_kid hok hcur hxk (by rw [e]; exact Nat.le_refl _) hpfx
+    rw [hrest y (by omega) hyc, hold1 y hy]
+  have hnid : lh'[lh.length]? = some (lleaf (k0 :: kt) d data) := by
+    rw [hrest lh.length (by omega) (by omega), hnew1]
+  intro s hs
+  obtain ⟨g1, g2⟩ := LA_leaf (lh' := lh') (by rw [← hkids]; exact hok.kidsValid hcur) hpre hpost hsame hnid rfl s hs
+  rw [look_step hr1, hr2, g1, look_step hcur, hkids]
+  by_cases e : s = k0 :: kt
+  · rw [if_pos e, if_pos e, g2 e, entR_ok_none, putEnt_none]; rfl
+  · rw [if_neg e, if_neg e]
+
+
+/-- the branches that replace the child `c` of `cur` by a new node `x` (clone with the new data, result of the
+    recursive call, or the upper half of a split) -/
+theorem put_replace_post {L : Nat} {lh lh1 : LHeap} {full full1 : Nat → Key} {P : Nat → Prop} (hok : LOk L lh full)
+    (hclosed : ∀ (id : Nat) (n : LN) (c : Nat), P id → lh[id]? = some n → c ∈ n.kids → P c)
+    {cur c x : Nat} {cn ch xh : LN} (hcur : lh[cur]? = some cn) (hP : P cur)
+    {k0 : Nat} {kt ct xt : Key} {pre post : List Nat} (hkids : cn.kids = pre ++ c :: post)
+    (hpre : ∀ y ∈ pre, HdLt lh k0 y) (hc : lh[c]? = some ch) (hck : ch.key = k0 :: ct)
+    {d : Nat} {data : Option Data}
+    (m1 : Mid L lh full P (full c) d lh1 full1) (hcur1 : lh1[cur]? = some cn)
+    (hx1 : lh1[x]? = some xh) (hxk : xh.key = k0 :: xt) (hxf : full1 x = full cur ++ xh.key) (hxnew : lh.length ≤ x)
+    (E1 : ∀ s : Key, s.length = (k0 :: kt).length → ∀ i i',
+      entR (desc1 lh1 s (.at i' x (lcp xh.key s))) =
+        if s = k0 :: kt then putEnt d data (entR (desc1 lh s (.at i c (lcp ch.key s))))
+        else entR (desc1 lh s (.at i c (lcp ch.key s)))) :
+    ∃ full', PutPost L lh full P cur (k0 :: kt) data d
+      (fin lh1 cur cn (pre ++ x :: post) d).1 (fin lh1 cur cn (pre ++ x :: post) d).2 full' := by
+  have hcurlt := valid_lt hcur
+  have hcm : c ∈ cn.kids := by rw [hkids]; simp
+  obtain ⟨nc0, q1, _, hfc⟩ := hok.kid cur cn c hcur hcm
+  rw [hc] at q1; cases q1
+  have hbelow : full cur <+: full c := by rw [hfc]; exact List.prefix_append _ _
+  have hkeep1 : ∀ (y : Nat) (ny : LN), lh[y]? = some ny → ∃ ny' : LN, lh1[y]? = some ny' ∧ ny'.key = ny.key := by
+    intro y ny hy
+    obtain ⟨ny', a, b, _⟩ := m1.keepkey y ny hy
+    exact ⟨ny', a, b⟩
+  have KC : ∀ y ∈ pre ++ x :: post, ∃ nc, lh1[y]? = some nc ∧ nc.key ≠ [] ∧
+      full1 y = full cur ++ nc.key ∧ (y < lh.length → P y) := by
+    intro y hy
+    by_cases e : y = x
+    · subst e
+      exact ⟨xh, hx1, by rw [hxk]; simp, hxf, fun h => by omega⟩
+    · have hy' : y ∈ cn.kids := by
+        rw [hkids]; simp only [List.mem_append, List.mem_cons] at hy ⊢
+        rcases hy with h | h | h
+        · exact Or.inl h
+        · exact absurd h e
+        · exact Or.inr (Or.inr h)
+      exact KC_old hok hclosed hcur hP hkeep1 m1.fsame hy'
+  obtain ⟨m2, hroot, ⟨rn', hr1, hr2⟩, hrest⟩ := fin_mid m1 hcur hcur1 hP hbelow _ KC
+  refine ⟨_, m2.toPost hcur hroot ?_⟩
+  generalize fin lh1 cur cn (pre ++ x :: post) d = fr at *
+  obtain ⟨lh', res⟩ := fr
+  simp only at m2 hroot hr1 hr2 hrest ⊢
+  have hxlt1 := valid_lt hx1
+  have hxcur : x ≠ cur := by omega
+  have hx' : lh'[x]? = some xh := by rw [hrest x hxlt1 hxcur]; exact hx1
+  have hlookx : ∀ t, look lh' x t = look lh1 x t := by
+    intro t
+    apply look_below m1.ok hxlt1
+    intro z hz hpfx
+    apply hrest z hz
+    intro e
+    have := hpfx.length_le
+    rw [e, hxf, m1.fsame cur hcurlt, List.length_append, hxk] at this
+    simp at this; omega
+  have hkeep : ∀ (y : Nat) (ny : LN), lh[y]? = some ny → ∃ ny' : LN, lh'[y]? = some ny' ∧ ny'.key = ny.key := by
+    intro y ny hy
+    obtain ⟨ny', a, b, _⟩ := m2.keepkey y ny hy
+    exact ⟨ny', a, b⟩
+  have hunt : ∀ z, z < lh.length → z ≠ cur → ¬ (full c <+: full z) → lh'[z]? = lh[z]? := by
+    intro z hz hzc hnb
+    rw [hrest z (by have := m1.len; omega) hzc]
+    cases hzn : lh[z]? with
+    | none => rw [List.getElem?_eq_none_iff] at hzn; omega
+    | some nz =>
+      rcases m1.old z nz hzn with h | ⟨_, _, h, _⟩
+      · exact h
+      · exact absurd h hnb
+  apply edge_sem hok hcur hkids hpre hc hck hr1 hr2 hx' hxk hkeep hunt
+  intro s hs i i'
+  rw [← E1 s hs i i']
+  congr 1
+  apply desc1_congr
+  intro a b j hr
+  cases hr
+  exact ⟨by rw [hx', hx1], hlookx⟩
+
+
+theorem look_append {L : Nat} {lh : LHeap} {full : Nat → Key} (hok : LOk L lh full) (news : List LN) {y : Nat}
+    (hy : y < lh.length) (t : Key) : look (lh ++ news) y t = look lh y t := by
+  apply look_frame (fun z => z < lh.length)
+  · intro id n c _ hn hc
+    obtain ⟨nc, g1, _, _⟩ := hok.kid id n c hn hc
+    exact valid_lt g1
+  · intro z hz; exact List.getElem?_append_left hz
+  · exact hy
+
+/-- E for the duplicate-key branch -/
+theorem E_dup {lh lh1 : LHeap} {c x : Nat} {ch : LN} {key : Key} {d : Nat} {data : Option Data}
+    (hc : lh[c]? = some ch) (hx : lh1[x]? = some { ch with dye := d, data := data, terminal := true })
+    (hlen : key.length = ch.key.length) (hj : lcp ch.key key = ch.key.length) (hd : ch.dye ≠ d)
+    (s : Key) (hs : s.length = key.length) (i i' : Nat) :
+    entR (desc1 lh1 s (.at i' x (lcp ({ ch with dye := d, data := data, terminal := true } : LN).key s))) =
+      if s = key then putEnt d data (entR (desc1 lh s (.at i c (lcp ch.key s))))
+      else entR (desc1 lh s (.at i c (lcp ch.key s))) := by
+  have hkey : ch.key = key := eq_of_lcp_full hj hlen.symm
+  simp only [desc1, hx, hc]
+  by_cases e : s = key
+  · rw [if_pos e]
+    subst e
+    have : lcp ch.key s = min ch.key.length s.length := by rw [hj]; omega
+    rw [if_pos this, if_pos hlen, if_pos this, if_pos hlen]
+    simp only [entR_ok_some, putEnt, LN.ent, hd, if_false]
+  · rw [if_neg e]
+    have : ¬ lcp ch.key s = min ch.key.length s.length := by
+      intro h
+      have h' : lcp ch.key s = ch.key.length := by omega
+      exact e ((eq_of_lcp_full h' (by omega)).symm.trans hkey)
+    rw [if_neg this, if_neg this]
+
+/-- E for the recursive branch, from the specification of the recursive call -/
+theorem E_rec {lh lh1 : LHeap} {c x : Nat} {ch xh : LN} {key : Key} {d : Nat} {data : Option Data}
+    (hc : lh[c]? = some ch) (hx : lh1[x]? = some xh) (hxk : xh.key = ch.key)
+    (hlen : key.length > ch.key.length) (hj : lcp ch.key key = ch.key.length)
+    (hsem : ∀ s' : Key, s'.length = (key.drop ch.key.length).length →
+      entR (look lh1 x s') = if s' = key.drop ch.key.length then putEnt d data (entR (look lh c s'))
+        else entR (look lh c s'))
+    (s : Key) (hs : s.length = key.length) (i i' : Nat) :
+    entR (desc1 lh1 s (.at i' x (lcp xh.key s))) =
+      if s = key then putEnt d data (entR (desc1 lh s (.at i c (lcp ch.key s))))
+      else entR (desc1 lh s (.at i c (lcp ch.key s))) := by
+  have hkey : ch.key = key.take ch.key.length := lcp_eq_left hj
+  simp only [desc1, hx, hc, hxk]
+  have hne : ¬ s.length = ch.key.length := by omega
+  have hgt : s.length > ch.key.length := by omega
+  by_cases t1 : lcp ch.key s = min ch.key.length s.length
+  · have hjs : lcp ch.key s = ch.key.length := by omega
+    have hsk : ch.key = s.take ch.key.length := lcp_eq_left hjs
+    rw [if_pos t1, if_neg hne, if_pos hgt, if_pos t1, if_neg hne, if_pos hgt, hjs]
+    have := hsem (s.drop ch.key.length) (by simp; omega)
+    rw [this]
+    have hiff : s.drop ch.key.length = key.drop ch.key.length ↔ s = key := by
+      constructor
+      · intro h
+        rw [← List.take_append_drop ch.key.length s, ← List.take_append_drop ch.key.length key, h, ← hsk, ← hkey]
+      · intro h; rw [h]
+    by_cases e : s = key
+    · rw [if_pos e, if_pos (hiff.mpr e)]
+    · rw [if_neg e, if_neg (fun h => e (hiff.mp h))]
+  · have hne' : s ≠ key := by
+      intro e; rw [e, hj] at t1; omega
+    rw [if_neg t1, if_neg hne', if_neg t1]
+
 end LemoProofs.CowHeapL
